@@ -7,6 +7,7 @@
 //! output: one JSON object on stdout.
 mod fw;
 mod sortchk;
+mod nanchk;
 
 fn main() {
     let args: Vec<String> = std::env::args().collect();
@@ -24,6 +25,7 @@ fn main() {
         "select" => sortchk::select(&mut cfg, &mut rep),
         "select_many" => sortchk::select_many(&mut cfg, &mut rep),
         "oob" => sortchk::oob(&mut cfg, &mut rep),
+        "nanview" => nanchk::nanview(&mut cfg, &mut rep),
         _ => {
             eprintln!("unknown enumeration {}", name);
             std::process::exit(4);
